@@ -253,6 +253,8 @@ type c17Exec struct {
 	c     *Case
 	v     *Verdict
 	progs map[string]*compiled
+	r     *runCtx
+	in    *inputs
 }
 
 func (e *c17Exec) violate(oracle, class, detail string) {
@@ -305,9 +307,26 @@ func (e *c17Exec) checkCompile(i int, cp *C17Compile) {
 		case "obsS", "obsI", "obsH", "obsAny", "obsSI":
 			continue // needs arguments
 		}
-		q := compile(ProgSpec{Src: o.Name + "()", Opts: cp.Opts, Patch: cp.Patch}, nil)
+		q := compile(ProgSpec{Src: o.Name + "()", Opts: cp.Opts}, nil)
 		if q.err != nil && q.panic == "" {
 			e.violate("option-model", "registered-function-missing", fmt.Sprintf("%s: function %q registered by the option list does not resolve: %v", where, o.Name, q.err))
+			continue
+		}
+		// ... and it is the registered function that runs under that name (whatever else the
+		// list contains, e.g. WithExperimentalFuncs after a custom `join`)
+		if q.ok() && q.fp != nil && e.r != nil {
+			oc := newOpCtx(0)
+			e.r.setRootOp(oc)
+			func() {
+				defer func() { _ = recover() }()
+				_, _ = q.fp.Evaluate(e.in.resources[:1])
+			}()
+			e.r.setRootOp(nil)
+			if oc.cbCalls == 0 {
+				e.violate("option-model", "registered-function-not-invoked", fmt.Sprintf("%s: calling %s() did not run the function registered under that name (%s)", where, o.Name, o.Fn))
+			} else {
+				st.probe("registered-function-invoked")
+			}
 		}
 	}
 }
@@ -687,6 +706,7 @@ func execC17(t *testing.T, c *Case) *Verdict {
 		r := &runCtx{c: c, stats: &v.Stats, in: in}
 		setRun(r)
 		defer setRun(nil)
+		e.r, e.in = r, in
 		for i := range c.C17.Compiles {
 			e.checkCompile(i, &c.C17.Compiles[i])
 		}
